@@ -146,7 +146,7 @@ func losslessSpace(part, parts int) {
 		for n := 1; n <= 64; n++ {
 			lens = append(lens, n)
 		}
-		lens = append(lens, 255, 256, 1000, 2000)
+		lens = append(lens, 255, 256, 1000, 2000, 2047, 2048, 2049, 4095, 4096, 4097, 10000)
 	}
 	for li := part; li < len(lens); li += parts {
 		for pat := 0; pat < 6; pat++ {
